@@ -25,6 +25,7 @@ pub fn check(tier: Tier) -> Check {
         ));
     }
     Check {
+        also_rel: false,
         property: "C17",
         level: "model_checking",
         rule: "all histories of QoS 1/2 publishes and acknowledgements (success / failing) up to the stated depth; the connection is lost (EOF) after every prefix; the hook records the disconnection secs_ago seconds ago; set_up + connect (same options) + run on a fresh transport; the second wire must show CONNECT followed by exactly the unfinished PUBLISH (DUP=1, same id and content) / PUBREL packets in original order when the session has not expired, nothing when it has; then the acknowledgements arrive on the new connection and a fresh publish follows; session expiry in {0, 1000 s, never} x secs_ago in {10, 100000}; non-trivial = something had to be re-sent or an expired session had abandoned operations".into(),
